@@ -33,7 +33,7 @@ pub fn cats_for(prop: &str, cancelable: bool) -> Vec<Cat> {
             BatchSplit, EarlyDelivery, LateDelivery, CtxMismatch, FrameBroken, Timing, Outcome,
         ],
         "C16" => vec![Lazy, UnexpectedUnknown, CtxMismatch],
-        "C17" => vec![CopyDiff, WrongParent, WrongTraceId, IdProblem, Missing],
+        "C17" => vec![CopyDiff, WrongParent, WrongTraceId, IdProblem, Missing, Timing],
         "C18" => vec![Timing],
         _ => vec![],
     }
@@ -237,6 +237,12 @@ pub fn profile_for(prop: &str, cancelable: bool, rng: &mut Rng) -> Profile {
             w.pushset = 6;
             pf.sleep_us = (50, 3000);
             pf.ops = (8, 40);
+            // now and then durations of more than a second
+            if rng.chance(1, 200) {
+                pf.long_sleeps = 1;
+                pf.ops = (8, 24);
+                w.sleep = 16;
+            }
         }
         _ => {}
     }
